@@ -14,11 +14,14 @@ import (
 )
 
 // c07Arith: polynomial addition and multiplication commute with evaluation
-// and commitment.
-func c07Arith(r *mon.R, g *groups.G, idx int) {
+// and commitment; every derived polynomial (sum, product, their commitments
+// under every base class, sums of commitments under every base class and
+// under mixed bases, polynomials rebuilt from Info()) goes through the same
+// battery as a freshly dealt one; operands stay intact; p+q = q+p, p*q = q*p.
+func c07Arith(r *mon.R, g *groups.G, light bool, idx int) {
 	rng := gen.New(r.Seed, "C07/arith/"+g.Name, idx)
 	edge := gen.Edge(g.Q)
-	r.Op("PriPoly.Add", "PriPoly.Mul", "PubPoly.Add", "PriPoly.Commit", "PriPoly.Eval", "PubPoly.Eval")
+	r.Op("PriPoly.Add", "PriPoly.Mul", "PubPoly.Add", "PriPoly.Commit", "PriPoly.Eval", "PubPoly.Eval", "CoefficientsToPriPoly")
 	mk := func(t int, class int) (*ref.C07Poly, *share.PriPoly) {
 		cs := make([]*big.Int, t)
 		for i := range cs {
@@ -42,8 +45,12 @@ func c07Arith(r *mon.R, g *groups.G, idx int) {
 		}
 		return ref.C07NewPoly(g.Q, cs), share.CoefficientsToPriPoly(g.Grp, ss)
 	}
-	t1 := 1 + rng.IntN(r.N(6, 9))
-	t2 := 1 + rng.IntN(r.N(6, 9))
+	tmax := r.N(6, 9)
+	if light {
+		tmax = r.N(4, 6)
+	}
+	t1 := 1 + rng.IntN(tmax)
+	t2 := 1 + rng.IntN(tmax)
 	cl1, cl2 := rng.IntN(4), rng.IntN(4)
 	if idx%4 != 0 { // mostly non-zero operands
 		cl1, cl2 = rng.IntN(2), rng.IntN(2)
@@ -51,55 +58,51 @@ func c07Arith(r *mon.R, g *groups.G, idx int) {
 	rp, p := mk(t1, cl1)
 	rq, q := mk(t2, cl2)
 	rq1, q1 := mk(t1, cl2) // same threshold as p, for Add
-	var baseArg kyber.Point
-	base := g.Point().Base()
-	baseClass := "nil"
-	if rng.IntN(2) == 0 {
-		k := new(big.Int).Add(rng.Big(new(big.Int).Sub(g.Q, big.NewInt(1))), big.NewInt(1))
-		base = g.Point().Mul(g.ScalarFromBig(k), g.Point().Base())
-		baseArg = c07DecP(g, groups.Enc(base))
-		baseClass = "k*B"
-	}
+	bases := c07Bases(g, rng)
 	c07Counter("arith/pairs").Add(1)
 	nt := !rp.IsZero() && !rq.IsZero() && !rq1.IsZero()
 	det := func(extra map[string]any) map[string]any {
-		d := map[string]any{"group": g.Name, "pair": idx, "seed": r.Seed, "p": c07Big(rp.C), "q": c07Big(rq.C), "q_same_threshold": c07Big(rq1.C), "base_class": baseClass, "base_enc": mon.Hex(groups.Enc(base))}
+		d := map[string]any{"group": g.Name, "pair": idx, "seed": r.Seed, "p": c07Big(rp.C), "q": c07Big(rq.C), "q_same_threshold": c07Big(rq1.C)}
+		for _, b := range bases {
+			d["base["+b.class+"]"] = mon.Hex(groups.Enc(b.pt))
+		}
 		for k, v := range extra {
 			d[k] = v
 		}
 		return d
 	}
 	desc := func(s string) string { return fmt.Sprintf("%s|arith%d|%s", g.Name, idx, s) }
-	coeffs := func(pp *share.PriPoly) *ref.C07Poly {
-		cs := pp.Coefficients()
-		out := make([]*big.Int, len(cs))
-		for i := range cs {
-			out[i] = groups.ScalarToBig(cs[i])
-		}
-		return ref.C07NewPoly(g.Q, out)
-	}
-	nEval := 4
-	evalIdx := func() []uint32 {
+	bat := &c07bat{r: r, g: g, rng: rng, n: 4 + rng.IntN(5), ctx: fmt.Sprintf("%s|arith%d", g.Name, idx), det: det, light: light}
+	evalIdx := func(k int) []uint32 {
 		out := []uint32{0}
-		for len(out) < nEval {
+		for len(out) < k {
 			out = append(out, uint32(rng.IntN(30)))
 		}
 		return out
 	}
-	expPt := func(v *big.Int) kyber.Point { return g.Point().Mul(g.ScalarFromBig(v), base) }
+	// base classes used for the (quadratic) commitment batteries of this pair: all four on
+	// full-budget groups; on reduced-budget groups nil plus one rotating explicit class
+	useBases := bases
+	if light {
+		useBases = []c07base{bases[0], bases[1+idx%3]}
+	}
 
-	// ---- addition
+	// ---- addition of private polynomials
 	sum, err := p.Add(q1)
+	sum2, err2 := q1.Add(p)
 	r.Eval("arith/Add/coefficients", desc("add"), nt)
 	wantSum := rp.Add(rq1)
-	if err != nil || sum == nil {
-		r.Violation("C07/"+g.Name+"/PriPoly.Add/error", "PriPoly.Add of two polynomials of the same group and threshold fails", det(map[string]any{"err": fmt.Sprint(err)}))
+	if err != nil || sum == nil || err2 != nil || sum2 == nil {
+		r.Violation("C07/"+g.Name+"/PriPoly.Add/error", "PriPoly.Add of two polynomials of the same group and threshold fails", det(map[string]any{"err": fmt.Sprint(err, err2)}))
 	} else {
-		if !coeffs(sum).Equal(wantSum) {
-			r.Violation("C07/"+g.Name+"/PriPoly.Add/wrong-coefficients", "coefficients of p+q differ from the reference sum", det(map[string]any{"got": c07Big(coeffs(sum).C)}))
+		if !c07Coeffs(g, sum).Equal(wantSum) {
+			r.Violation("C07/"+g.Name+"/PriPoly.Add/wrong-coefficients", "coefficients of p+q differ from the reference sum", det(map[string]any{"got": c07Big(c07Coeffs(g, sum).C)}))
 		}
-		// operands untouched by the sum (a sum that aliases an operand would make p.Eval wrong below)
-		for _, i := range evalIdx() {
+		r.Eval("arith/Add/commutes", desc("addcomm"), nt)
+		if !c07Coeffs(g, sum).Equal(c07Coeffs(g, sum2)) || !sum.Equal(sum2) || !sum2.Equal(sum) {
+			r.Violation("C07/"+g.Name+"/PriPoly.Add/not-commutative", "p+q and q+p are different polynomials", det(map[string]any{"p+q": c07Big(c07Coeffs(g, sum).C), "q+p": c07Big(c07Coeffs(g, sum2).C)}))
+		}
+		for _, i := range evalIdx(4) {
 			r.Eval("arith/Add/eval", desc(fmt.Sprintf("addev%d", i)), nt)
 			l := groups.ScalarToBig(sum.Eval(i).V)
 			rr := groups.ScalarToBig(g.Scalar().Add(p.Eval(i).V, q1.Eval(i).V))
@@ -108,63 +111,113 @@ func c07Arith(r *mon.R, g *groups.G, idx int) {
 				r.Violation("C07/"+g.Name+"/PriPoly.Add/eval-not-additive", "(p+q).Eval(i) != p.Eval(i)+q.Eval(i)", det(map[string]any{"i": i, "lhs": l.Text(16), "rhs": rr.Text(16), "ref": w.Text(16)}))
 			}
 		}
-		// commitment
-		cs := sum.Commit(baseArg)
-		cp, cq := p.Commit(baseArg), q1.Commit(baseArg)
+		// the sum as an object of its own, committed under every base class
+		bat.pri("PriPoly.Add", sum, wantSum, useBases)
+	}
+
+	// ---- addition of public polynomials, under every base class and both operand orders
+	for _, bs := range useBases {
+		spP, spQ, spS := c07SpecOver(g, rp, bs), c07SpecOver(g, rq1, bs), c07SpecOver(g, wantSum, bs)
+		cp, cq := p.Commit(bs.arg), q1.Commit(bs.arg)
 		csum, err := cp.Add(cq)
-		r.Eval("arith/Add/commit", desc("addcommit"), nt)
-		if err != nil || csum == nil {
-			r.Violation("C07/"+g.Name+"/PubPoly.Add/error", "PubPoly.Add of two commitments of the same group and threshold fails", det(map[string]any{"err": fmt.Sprint(err)}))
-		} else {
-			_, a := cs.Info()
-			_, b := csum.Info()
-			bad := ""
-			if len(a) != len(b) || len(a) != len(wantSum.C) {
-				bad = fmt.Sprintf("lengths %d %d want %d", len(a), len(b), len(wantSum.C))
-			} else {
-				for j := range a {
-					if ok, why := c07SamePt(a[j], b[j]); !ok {
-						bad = fmt.Sprintf("coefficient %d: (p+q).Commit vs p.Commit+q.Commit: %s", j, why)
-						break
-					}
-					if ok, why := c07SamePt(b[j], expPt(wantSum.C[j])); !ok {
-						bad = fmt.Sprintf("coefficient %d: p.Commit+q.Commit vs reference: %s", j, why)
-						break
-					}
-				}
-			}
-			if bad != "" {
-				r.Violation("C07/"+g.Name+"/PubPoly.Add/commit-not-additive", "(p+q).Commit != p.Commit + q.Commit coefficient-wise", det(map[string]any{"why": bad}))
-			}
+		csum2, err2 := cq.Add(cp)
+		r.Eval("arith/PubPoly.Add/"+bs.class, desc("padd|"+bs.class), nt)
+		if err != nil || csum == nil || err2 != nil || csum2 == nil {
+			r.Violation("C07/"+g.Name+"/PubPoly.Add/"+bs.class+"/error", "PubPoly.Add of two commitments of the same group and threshold fails", det(map[string]any{"err": fmt.Sprint(err, err2), "base_class": bs.class}))
+			continue
+		}
+		bat.pub("PubPoly.Add", csum, spS, 0)
+		bat.pub("PubPoly.Add(swapped)", csum2, spS, 1)
+		r.Eval("arith/PubPoly.Add/commutes", desc("paddcomm|"+bs.class), nt)
+		if !csum.Equal(csum2) || !csum2.Equal(csum) {
+			r.Violation("C07/"+g.Name+"/PubPoly.Add/"+bs.class+"/not-commutative", "P+Q and Q+P are different public polynomials", det(map[string]any{"base_class": bs.class}))
+		}
+		if sum != nil {
+			r.Eval("arith/Add/commit", desc("addcommit|"+bs.class), nt)
+			cs := sum.Commit(bs.arg)
 			if !cs.Equal(csum) || !csum.Equal(cs) {
-				r.Violation("C07/"+g.Name+"/PubPoly.Add/not-Equal", "PubPoly.Equal((p+q).Commit, p.Commit+q.Commit) is false", det(nil))
+				r.Violation("C07/"+g.Name+"/PubPoly.Add/"+bs.class+"/commit-not-additive", "(p+q).Commit != p.Commit + q.Commit", det(map[string]any{"base_class": bs.class}))
 			}
-			for _, i := range evalIdx() {
-				r.Eval("arith/Add/pub-eval", desc(fmt.Sprintf("addpub%d", i)), nt)
-				l := csum.Eval(i).V
-				rr := g.Point().Add(cp.Eval(i).V, cq.Eval(i).V)
-				ok1, why1 := c07SamePt(l, rr)
-				ok2, why2 := c07SamePt(l, expPt(wantSum.EvalIndex(i)))
-				if !ok1 || !ok2 {
-					r.Violation("C07/"+g.Name+"/PubPoly.Add/eval-not-additive", "(P+Q).Eval(i) != P.Eval(i)+Q.Eval(i)", det(map[string]any{"i": i, "vs_sum": why1, "vs_ref": why2}))
-				}
+		}
+		i := uint32(rng.IntN(30))
+		r.Eval("arith/Add/pub-eval", desc(fmt.Sprintf("addpub%d|%s", i, bs.class)), nt)
+		if ok, why := c07SamePt(csum.Eval(i).V, g.Point().Add(cp.Eval(i).V, cq.Eval(i).V)); !ok {
+			r.Violation("C07/"+g.Name+"/PubPoly.Add/"+bs.class+"/eval-not-additive", "(P+Q).Eval(i) != P.Eval(i)+Q.Eval(i)", det(map[string]any{"i": i, "why": why, "base_class": bs.class}))
+		}
+		// a sum of a sum (derived from derived)
+		if bs.class == useBases[len(useBases)-1].class {
+			if c3, err := csum.Add(cp); err != nil || c3 == nil {
+				r.Violation("C07/"+g.Name+"/PubPoly.Add/"+bs.class+"/error", "PubPoly.Add of a sum and a commitment fails", det(map[string]any{"err": fmt.Sprint(err)}))
+			} else {
+				bat.pub("PubPoly.Add(PubPoly.Add)", c3, c07SpecOver(g, wantSum.Add(rp), bs), 1)
 			}
+		}
+		// operands as they were
+		bat.pubIntact("PubPoly.Add/operand-P", cp, spP)
+		bat.pubIntact("PubPoly.Add/operand-Q", cq, spQ)
+		bat.pubIntact("PubPoly.Add/result-after-use", csum, spS)
+	}
+	// mixed naming of the same base: nil + explicit Base() (both orders). The sum is over the standard base.
+	{
+		bn, bb := bases[0], bases[2]
+		cpN, cqB := p.Commit(bn.arg), q1.Commit(bb.arg)
+		if s1, err := cpN.Add(cqB); err == nil && s1 != nil {
+			sp := c07SpecOver(g, wantSum, bn)
+			sp.baseClass = "nil+Base()"
+			bat.pub("PubPoly.Add", s1, sp, 1)
+		} else {
+			r.Violation("C07/"+g.Name+"/PubPoly.Add/nil+Base()/error", "PubPoly.Add fails", det(map[string]any{"err": fmt.Sprint(err)}))
+		}
+		if s2, err := cqB.Add(cpN); err == nil && s2 != nil {
+			sp := c07SpecOver(g, wantSum, bb)
+			sp.baseClass = "Base()+nil"
+			bat.pub("PubPoly.Add", s2, sp, 1)
+		} else {
+			r.Violation("C07/"+g.Name+"/PubPoly.Add/Base()+nil/error", "PubPoly.Add fails", det(map[string]any{"err": fmt.Sprint(err)}))
+		}
+	}
+	// operands over unrelated bases: only what share/poly.go promises is judged (commitments and
+	// evaluations add up, the base reported is the receiver's); Check has no meaning there.
+	{
+		b1, b2 := bases[1], bases[3]
+		c1, c2 := p.Commit(b1.arg), q1.Commit(b2.arg)
+		s, err := c1.Add(c2)
+		if err != nil || s == nil {
+			r.Violation("C07/"+g.Name+"/PubPoly.Add/k*B+Pick/error", "PubPoly.Add fails", det(map[string]any{"err": fmt.Sprint(err)}))
+		} else {
+			sp := &c07pubSpec{T: t1, base: b1.pt, nilBase: false, baseClass: "k*B+Pick",
+				commit: func(j int) kyber.Point {
+					return g.Point().Add(g.Point().Mul(g.ScalarFromBig(rp.C[j]), b1.pt), g.Point().Mul(g.ScalarFromBig(rq1.C[j]), b2.pt))
+				},
+				eval: func(i uint32) kyber.Point {
+					return g.Point().Add(g.Point().Mul(g.ScalarFromBig(rp.EvalIndex(i)), b1.pt), g.Point().Mul(g.ScalarFromBig(rq1.EvalIndex(i)), b2.pt))
+				}}
+			bat.pub("PubPoly.Add", s, sp, 1)
+			bat.pubIntact("PubPoly.Add/operand-P", c1, c07SpecOver(g, rp, b1))
+			bat.pubIntact("PubPoly.Add/operand-Q", c2, c07SpecOver(g, rq1, b2))
 		}
 	}
 
 	// ---- multiplication
 	prod := p.Mul(q)
+	prod2 := q.Mul(p)
 	wantProd := rp.Mul(rq)
 	nt2 := !rp.IsZero() && !rq.IsZero()
 	r.Eval("arith/Mul/coefficients", desc("mul"), nt2)
-	if prod == nil || int(prod.Threshold()) != t1+t2-1 || !coeffs(prod).Equal(wantProd) {
+	if prod == nil || prod2 == nil || int(prod.Threshold()) != t1+t2-1 || !c07Coeffs(g, prod).Equal(wantProd) {
 		d := det(nil)
 		if prod != nil {
-			d["got"] = c07Big(coeffs(prod).C)
+			d["got"] = c07Big(c07Coeffs(g, prod).C)
+			d["Threshold"] = prod.Threshold()
 		}
-		r.Violation("C07/"+g.Name+"/PriPoly.Mul/wrong-coefficients", "coefficients of p*q differ from the reference convolution", d)
-	} else {
-		for _, i := range evalIdx() {
+		r.Violation("C07/"+g.Name+"/PriPoly.Mul/wrong-coefficients", "coefficients/threshold of p*q differ from the reference convolution", d)
+	}
+	if prod != nil && prod2 != nil {
+		r.Eval("arith/Mul/commutes", desc("mulcomm"), nt2)
+		if !c07Coeffs(g, prod).Equal(c07Coeffs(g, prod2)) || !prod.Equal(prod2) || !prod2.Equal(prod) {
+			r.Violation("C07/"+g.Name+"/PriPoly.Mul/not-commutative", "p*q and q*p are different polynomials", det(map[string]any{"p*q": c07Big(c07Coeffs(g, prod).C), "q*p": c07Big(c07Coeffs(g, prod2).C)}))
+		}
+		for _, i := range evalIdx(4) {
 			r.Eval("arith/Mul/eval", desc(fmt.Sprintf("mulev%d", i)), nt2)
 			l := groups.ScalarToBig(prod.Eval(i).V)
 			rr := groups.ScalarToBig(g.Scalar().Mul(p.Eval(i).V, q.Eval(i).V))
@@ -173,34 +226,51 @@ func c07Arith(r *mon.R, g *groups.G, idx int) {
 				r.Violation("C07/"+g.Name+"/PriPoly.Mul/eval-not-multiplicative", "(p*q).Eval(i) != p.Eval(i)*q.Eval(i)", det(map[string]any{"i": i, "lhs": l.Text(16), "rhs": rr.Text(16), "ref": w.Text(16)}))
 			}
 		}
-		cpd := prod.Commit(baseArg)
-		_, a := cpd.Info()
-		r.Eval("arith/Mul/commit", desc("mulcommit"), nt2)
-		bad := ""
-		if len(a) != len(wantProd.C) {
-			bad = "length"
-		} else {
-			for j := range a {
-				if ok, why := c07SamePt(a[j], expPt(wantProd.C[j])); !ok {
-					bad = fmt.Sprintf("coefficient %d: %s", j, why)
-					break
-				}
-			}
-		}
-		if bad != "" {
-			r.Violation("C07/"+g.Name+"/PriPoly.Mul/commit-wrong", "(p*q).Commit differs from the commitment of the reference product", det(map[string]any{"why": bad}))
-		}
+		// the product as an object of its own, committed under base classes (rotating pair: the battery is linear in t1+t2)
+		pb := []c07base{useBases[idx%len(useBases)], useBases[(idx+1)%len(useBases)]}
+		bat.pri("PriPoly.Mul", prod, wantProd, pb)
+		bs := pb[0]
 		i := uint32(rng.IntN(30))
 		r.Eval("arith/Mul/pub-eval", desc(fmt.Sprintf("mulpub%d", i)), nt2)
 		pe := g.Scalar().Mul(p.Eval(i).V, q.Eval(i).V)
-		if ok, why := c07SamePt(cpd.Eval(i).V, g.Point().Mul(pe, base)); !ok {
-			r.Violation("C07/"+g.Name+"/PriPoly.Mul/commit-eval-wrong", "(p*q).Commit.Eval(i) != (p.Eval(i)*q.Eval(i))*base", det(map[string]any{"i": i, "why": why}))
+		if ok, why := c07SamePt(prod.Commit(bs.arg).Eval(i).V, g.Point().Mul(pe, bs.pt)); !ok {
+			r.Violation("C07/"+g.Name+"/PriPoly.Mul/commit-eval-wrong", "(p*q).Commit.Eval(i) != (p.Eval(i)*q.Eval(i))*base", det(map[string]any{"i": i, "why": why, "base_class": bs.class}))
 		}
 	}
-	// the operands must still be what they were (Add/Mul return new polynomials)
-	r.Eval("arith/operands-intact", desc("intact"), nt)
-	if !coeffs(p).Equal(rp) || !coeffs(q).Equal(rq) || !coeffs(q1).Equal(rq1) {
-		r.Violation("C07/"+g.Name+"/PriPoly.arith/operand-changed", "Add/Mul/Commit/Eval changed an operand polynomial", det(map[string]any{"p_now": c07Big(coeffs(p).C), "q_now": c07Big(coeffs(q).C), "q1_now": c07Big(coeffs(q1).C)}))
+
+	// ---- the operands must still be what they were (Add/Mul/Commit/Eval return new objects)
+	intact := func(stage string) {
+		r.Eval("arith/operands-intact", desc("intact|"+stage), nt)
+		if !c07Coeffs(g, p).Equal(rp) || !c07Coeffs(g, q).Equal(rq) || !c07Coeffs(g, q1).Equal(rq1) {
+			r.Violation("C07/"+g.Name+"/PriPoly.arith/operand-changed/"+stage, "an operand polynomial changed ("+stage+")", det(map[string]any{"p_now": c07Big(c07Coeffs(g, p).C), "q_now": c07Big(c07Coeffs(g, q).C), "q1_now": c07Big(c07Coeffs(g, q1).C)}))
+		}
 	}
-	r.SampleClass("arith/"+g.Name, map[string]any{"kind": "arith", "group": g.Name, "t_p": t1, "t_q": t2, "base_class": baseClass, "p": c07Big(rp.C), "q": c07Big(rq.C)})
+	intact("after-use")
+	// a derived polynomial is a value of its own: overwriting ITS coefficients must not reach the operands
+	if sum != nil {
+		for _, c := range sum.Coefficients() {
+			c.Add(c, g.Scalar().One())
+		}
+	}
+	if prod != nil {
+		for _, c := range prod.Coefficients() {
+			c.Zero()
+		}
+	}
+	intact("after-overwriting-derived")
+	if sum != nil {
+		// and the same for the commitments of a derived public polynomial
+		bs := useBases[len(useBases)-1]
+		cp, cq := p.Commit(bs.arg), q1.Commit(bs.arg)
+		if cs, err := cp.Add(cq); err == nil && cs != nil {
+			_, cc := cs.Info()
+			for _, c := range cc {
+				c.Null()
+			}
+			bat.pubIntact("PubPoly.Add/operand-P-after-overwriting-derived", cp, c07SpecOver(g, rp, bs))
+			bat.pubIntact("PubPoly.Add/operand-Q-after-overwriting-derived", cq, c07SpecOver(g, rq1, bs))
+			intact("after-overwriting-derived-commitments")
+		}
+	}
+	r.SampleClass("arith/"+g.Name, map[string]any{"kind": "arith", "group": g.Name, "t_p": t1, "t_q": t2, "p": c07Big(rp.C), "q": c07Big(rq.C)})
 }
